@@ -572,6 +572,11 @@ class HealpixLandscape(StokesLandscape):
         }  # static values
         return (), aux_data
 
+    @classmethod
+    def tree_unflatten(cls, aux_data, children) -> Self:  # type: ignore[no-untyped-def]
+        # the shape is derived from nside by the constructor
+        return cls(aux_data['nside'], aux_data['stokes'], aux_data['dtype'])
+
     @partial(jax.jit, static_argnums=0)
     def world2pixel(
         self, theta: Float[Array, ' *dims'], phi: Float[Array, ' *dims']
@@ -610,3 +615,9 @@ class FrequencyLandscape(HealpixLandscape):
             'frequencies': self.frequencies,
         }  # static values
         return (), aux_data
+
+    @classmethod
+    def tree_unflatten(cls, aux_data, children) -> Self:  # type: ignore[no-untyped-def]
+        return cls(
+            aux_data['nside'], aux_data['frequencies'], aux_data['stokes'], aux_data['dtype']
+        )
